@@ -400,6 +400,67 @@ fn check_bad(c: &BadCase, obs: &mut Obs) -> Result<(), String> {
 }
 
 // ------------------------------------------------------------------------------------------
+// input files written by the harness's QASM grammar (several registers, broadcasts, user gates,
+// every angle spelling) instead of quizx's own printer: here the reference is the gate list the
+// generator intended, not what the front end parsed
+
+#[derive(Clone, Debug, Serialize, Deserialize)]
+pub struct SpelledCase {
+    pub text: super::c14::TextCase,
+    pub bits: Vec<bool>,
+    pub pick: u64,
+}
+
+fn check_spelled(c: &SpelledCase, obs: &mut Obs) -> Result<(), String> {
+    let b = super::c14::build(&c.text);
+    let Some(m) = b.expected else {
+        obs.skip("text-must-be-rejected");
+        return Ok(());
+    };
+    if m.n == 0 || m.n > 9 || m.gates.iter().any(|g| !g.k.is_unitary()) {
+        obs.skip("measurement-or-size");
+        return Ok(());
+    }
+    let n = m.n;
+    let psi = state_of(&m);
+    let probs: Vec<f64> = psi.iter().map(|a| a.norm_sqr()).collect();
+    let support: Vec<usize> = (0..probs.len()).filter(|&r| probs[r] > 1e-9).collect();
+    let r = support[(c.pick as usize) % support.len()];
+    let mut bits: Vec<bool> = (0..n).map(|q| (r >> (n - 1 - q)) & 1 == 1).collect();
+    if c.pick % 3 == 0 {
+        bits = (0..n).map(|i| c.bits.get(i).copied().unwrap_or(false)).collect();
+    }
+    let want = probs[index_of(&bits)];
+    obs.class_if(m.gates.iter().any(|g| g.k.has_phase()), "has-spelled-angle");
+    if m.gates.iter().any(|g| g.k.has_phase()) && support.len() >= 2 {
+        obs.nontrivial();
+    }
+    let path = tmp_path("c06-spelled");
+    std::fs::write(&path, &b.text).map_err(|e| format!("harness: {e}"))?;
+    let q: String = bits.iter().map(|&b| if b { '1' } else { '0' }).collect();
+    let args: Vec<String> = vec!["sim".into(), path.to_string_lossy().to_string(), "-a".into(), q.clone()];
+    let r = run_cli(&args, &[]);
+    let _ = std::fs::remove_file(&path);
+    if r.code != Some(0) {
+        if r.stderr.contains("No ts!") {
+            return obs.known("sim-non-clifford-t-phase-panics", "quizx sim panics with 'No ts!'");
+        }
+        return Err(format!(
+            "quizx sim -a {q}: exit {:?} on a supported text: {}; text: {}",
+            r.code,
+            r.stderr.chars().take(200).collect::<String>(),
+            b.text.replace('\n', " ")
+        ));
+    }
+    let v: f64 = r.stdout.trim().parse().map_err(|_| format!("quizx sim -a {q}: output {:?} is not a number", r.stdout))?;
+    // decimal radians pass through f32 in the front end
+    if !close(v, want, 1e-4) {
+        return Err(format!("quizx sim -a {q}: printed {v}, |<b|C|0>|^2 = {want} for the circuit the text denotes; text: {}", b.text.replace('\n', " ")));
+    }
+    Ok(())
+}
+
+// ------------------------------------------------------------------------------------------
 // wide structured circuits (53-64 qubits): the output distribution is uniform over an affine
 // subspace, so every probability is known in closed form although no state vector fits
 
@@ -667,6 +728,15 @@ pub fn def(ctx: &Ctx) -> PropertyDef {
         sections: vec![
             Section::random("clifford-t", ctx.cases(120, 3000), mk(false, t.pick(14, 22)), check),
             Section::random("general-phases", ctx.cases(30, 600), mk(true, 8), check),
+            Section::random(
+                "spelled-input",
+                ctx.cases(30, 600),
+                || {
+                    (super::c14::text_case(false), prop::collection::vec(any::<bool>(), 9), any::<u64>())
+                        .prop_map(|(text, bits, pick)| SpelledCase { text, bits, pick })
+                },
+                check_spelled,
+            ),
             Section::random(
                 "wide-structured",
                 ctx.cases(3, 60),
